@@ -595,6 +595,85 @@ def c07_name(v):
     return repr(v)
 
 
+def r09h(ctx, run):
+    """an unannotated local that was initialised with a small literal and is later ASSIGNED a wider value follows the value: when the usages of a local
+    are re-inferred, a plain `dest = value` whose destination is still weak and can be specialised to the value's type gives the destination that type
+    (otherwise the local stays a default 32-bit integer and `m := 0; m = 3_000_000_000;` stores a truncated number).  The plain-assignment arm of
+    reinfer_usages is evaluated from source for (weak destination, sized value) pairs."""
+    import c07
+    from absint import Obj, Term, Variant, Panic, CannotEstablish, _Return
+    V = Variant
+    fn = ctx.syn.fn("GlobalInferenceCtx::reinfer_usages", "hir_ty/src/globals.rs")
+    arms = [(b, a) for m in synq.matches_on(fn.body) if "quick_assign_op" in canon(m["e"]) for h, p_, g, b, a in synq.match_table(m) if canon(a["p"]) == "None"]
+    if len(arms) != 1:
+        raise LookupError("the plain-assignment arm (`None`) of reinfer_usages' match on quick_assign_op: %d" % len(arms))
+    body, arm = arms[0]
+    QI = c07.make_ty_interp(ctx)
+    weak_u, weak_i = V("Ty::UInt", {"0": 0}), V("Ty::IInt", {"0": 0})
+    cases = [("{uint}", weak_u, "u64", V("Ty::UInt", {"0": 64})), ("{uint}", weak_u, "i64", V("Ty::IInt", {"0": 64})), ("{int}", weak_i, "i64", V("Ty::IInt", {"0": 64})),
+             ("{uint}", weak_u, "u8", V("Ty::UInt", {"0": 8}))]
+    for dn, dty, vn, vty in cases:
+        calls = []
+
+        class RI(QI):
+            def default_method(self, recv, m_, args, e):
+                if isinstance(recv, Obj) and recv.name == "self" and m_ == "replace_weak_tys":
+                    calls.append((args[0], args[1]))
+                    return True
+                return super().default_method(recv, m_, args, e)
+        it = RI()
+        env = {"self": Obj("self"), "assign_body": Obj("assign_body", dest=Term("dest"), value=Term("value")), "dest_ty": dty, "value_ty": vty}
+        try:
+            try:
+                it.eval(body, env)
+            except _Return:
+                pass
+        except (Panic, CannotEstablish) as c:
+            run.finding(fn.qual, "assign-follows-value:%s<-%s" % (dn, vn), fn.file, arm["ln"], "cannot establish what a plain assignment of a %s value to a %s local does: %s" % (vn, dn, getattr(c, "what", c)))
+            continue
+        widened = any(t == Term("dest") and ty == vty for t, ty in calls)
+        run.check(widened, fn.site(arm["ln"]), "a %s local assigned a %s value becomes %s" % (dn, vn, vn), fn.qual, "assign-follows-value:%s<-%s" % (dn, vn), fn.file, arm["ln"],
+                  "a local that is still %s and is assigned a %s value is not given the type %s (replace_weak_tys calls: %s): it keeps the default 32-bit type and the "
+                  "assigned value is stored truncated" % (dn, vn, vn, [(str(t), c07_name(ty)) for t, ty in calls]))
+
+
+# forms whose type IS (or is built from) the type of their parts: when a literal inside was widened (an unannotated literal above i32::MAX becomes a
+# 64-bit integer), the form's recorded type has to follow, or the code generator materialises the value at the stale default width
+FOLLOWING_FORMS = {
+    "Paren": "`x := (3000000011);`",
+    "Comptime": "`x := comptime { 4000000000 };`",
+    "ArrayLiteral": "`arr := .[1, 2, 3000000000];`",
+    "StructLiteral": "`t := .{ a = 3000000005, b = 1 };`",
+    "Block": "`x := { 3000000000 };`",
+    "If": "`x := if c { 3000000000 } else { 1 };`",
+    "Binary": "`x := 3000000000 + 1;`",
+    "Unary": "`x := -3000000000;`",
+}
+
+
+def r09i(ctx, run):
+    """re-inference carries a widened literal's type up through every form whose type follows its parts: reinfer_expr's per-kind table (the match on the
+    expression kind inside its bottom-up walk) must have an arm that computes a type - not the catch-all `continue` - for each such form"""
+    fn = ctx.syn.fn("GlobalInferenceCtx::reinfer_expr", "hir_ty/src/globals.rs")
+    tables = []
+    for m in synq.matches_on(fn.body):
+        heads = {}
+        for h, p_, g, b, a in synq.match_table(m):
+            if h and h.startswith("Expr::"):
+                heads.setdefault(synq.last_seg(h), []).append((b, a))
+        if "IntLiteral" in heads and len(heads) >= 6:
+            tables.append((m, heads))
+    if len(tables) != 1:
+        raise LookupError("the per-kind type table of reinfer_expr: %d candidates" % len(tables))
+    m, heads = tables[0]
+    for kind, example in FOLLOWING_FORMS.items():
+        arms = heads.get(kind, [])
+        computes = [a for b, a in arms if canon(synq.strip_block(b)) not in ("continue", "continue;")]
+        run.check(bool(computes), fn.site(computes[0]["ln"] if computes else m["ln"]), "Expr::%s: its type follows its parts" % kind, fn.qual, "follows:" + kind, fn.file, m["ln"],
+                  "reinfer_expr has no arm for Expr::%s (it falls to `continue`): when a literal inside is widened to a 64-bit integer the %s keeps its stale default type and "
+                  "the written value is truncated (%s)" % (kind, kind, example))
+
+
 def rules(ctx):
     return [
         Rule("R09.a", "escape tables of string and char literals equal the reference table and each other; default arm rejects", 27, r09a),
@@ -602,6 +681,8 @@ def rules(ctx):
         Rule("R09.c", "get_max_int_size(T) = min(max(T), u64::MAX) for every width; users reject exactly values > max, tested against the type the literal is given", 17, r09c),
         Rule("R09.e", "weak-type replacement reaches the literals inside every transparent expression form unconditionally", 18, r09e),
         Rule("R09.g", "weak-type replacement retypes only expressions whose value is made at that type; index/member expressions keep the type of the memory they read", 5, r09g),
+        Rule("R09.h", "a weak local that is assigned a sized value takes the value's type (plain-assignment arm of reinfer_usages evaluated)", 4, r09h),
+        Rule("R09.i", "re-inference carries a widened literal's type up through every form whose type follows its parts", 8, r09i),
         Rule("R09.f", "code generation materialises the written value: iconst/fNNconst/data object built from n without sign extension or truncation; constant data at the type's width", 20, r09f),
         Rule("R09.d", "weak literal widening thresholds do not exceed the maximum of the type codegen gives weak ints", 6, r09d),
     ]
